@@ -102,7 +102,10 @@ func Eval(c *core.Ctx, line string) *core.Case {
 	}
 	w, err := c11.NewWorld(0, mode, "")
 	if err != nil {
-		return nil
+		// the handler must be constructible in every operating mode: report, do not drop
+		what := fmt.Sprintf("dhcp4 handler cannot be constructed in mode %d on the harness configuration: %v", mode, err)
+		return &core.Case{Line: line, Impl: "err construct", Cmp: func(string, string) bool { return true },
+			Oracle: func() (string, string) { return what, "" }}
 	}
 	buf := frame(f[2], p)
 	var returned atomic.Value
@@ -120,6 +123,7 @@ func Eval(c *core.Ctx, line string) *core.Case {
 		return r
 	})
 	if impl == "notparsed" {
+		c.Why = "Session.Parse does not hand the frame to the DHCPv4 processor"
 		return nil
 	}
 	if r, ok := returned.Load().(string); ok && (impl == "hang" || impl == "panic") {
@@ -142,12 +146,16 @@ func Eval(c *core.Ctx, line string) *core.Case {
 
 func add(c *core.Ctx, class, line string) {
 	if hangs >= 3 {
+		c.Drop(class, "skipped: hang budget of dhcp.proc spent")
 		return
 	}
-	if cs := Eval(c, line); cs != nil {
-		cs.Class = class
-		c.Add(*cs)
+	cs := Eval(c, line)
+	if cs == nil {
+		c.Drop(class, "not evaluated")
+		return
 	}
+	cs.Class = class
+	c.Add(*cs)
 }
 
 // message builds a BOOTP/DHCP message: fixed part, magic cookie, options in the given order, end.
@@ -237,7 +245,7 @@ func Gen(c *core.Ctx) {
 		mode := 1 + r.Intn(3)
 		add(c, "dhcp.proc-valid", fmt.Sprintf("dhcp.proc %d %s %s", mode, dir, core.Hex(p)))
 		if i%c.Scale(25, 300) == 0 {
-			for cut := 0; cut <= len(p); cut += 1 + r.Intn(c.Scale(3, 1)) {
+			for cut := 0; cut <= len(p); cut++ {
 				add(c, "dhcp.proc-truncated", fmt.Sprintf("dhcp.proc %d %s %s", mode, dir, core.Hex(p[:cut])))
 			}
 		}
